@@ -121,12 +121,14 @@ func writeDXF(wg *sync.WaitGroup, path string) (chan<- []*sdf.Line2, error) {
 	go func() {
 		defer wg.Done()
 		for ls := range c {
+			simYield("render.writeDXF", uint64(len(ls)))
 			for _, l := range ls {
 				p0 := l[0]
 				p1 := l[1]
 				d.drawing.Line(p0.X, p0.Y, 0, p1.X, p1.Y, 0)
 			}
 		}
+		simYield("render.writeDXF.save", 0)
 		err := d.Save()
 		if err != nil {
 			fmt.Printf("%s\n", err)
